@@ -324,6 +324,7 @@ func senGen(args []string) {
 	pred := fs.String("pred", "", "ndjson of strings the SenText design check predicts not to survive")
 	tbl := fs.String("tables", "", "ndjson of TLC-enumerated table shapes (rows x keys, present/absent)")
 	het := fs.String("hetero", "", "ndjson of TLC-enumerated column profiles (cell kind per row)")
+	flc := fs.String("floats", "", "ndjson of TLC-enumerated float shape classes")
 	fs.Parse(args)
 	quick := *tier != "thorough"
 	r := rand.New(rand.NewSource(seed()))
@@ -454,6 +455,12 @@ func senGen(args []string) {
 		o := sc.o
 		o.Sort = true
 		emit(sc.tree, o, sc.p, "size")
+	}
+	// floats of every shape class (significant digits x decimal exponent x sign x pattern): top level, element, member value
+	for i, f := range classFloats(*flc) {
+		emit(aFlt(f), sopts(i%16), nil, "fclass")
+		emit(aArr(aFlt(f), aInt(1), aFlt(f)), sopts((i+3)%16), []pcfg{pcfgOf(i % 32)}, "fclass")
+		emit(aObj("k", aFlt(f), "z", aStr("s")), sopts((i+5)%16), nil, "fclass")
 	}
 	// (4) numbers
 	for _, i := range append([]int64{0}, intLeaves...) {
